@@ -87,5 +87,131 @@ CHECKS = {
           "up to the unit's own behaviour.",
   "note": ASSUME + "int.to_bytes(2, order) raises outside 0..65535; "
           "NumericResponse.value is an int exactly for a clean frame (C06)."},
+ "C09": {
+  "technique": "path-sensitive typestate on generator CFGs (write-enable, "
+               "latch pairing), command whitelist, response discipline, "
+               "sibling agreement",
+  "text": "Proves on the CFGs of read_raw/read/from_list/read_all, for every "
+          "path: only DTR0/DTR1/ReadMemoryLocation are issued (plus the "
+          "latch bracket's EnableWriteMemory and writes of 0xAA/0xFF to "
+          "location 2); DTR1(bank) and the DTR0 selection dominate every "
+          "read and the tracker follows the auto-increment; the latch is "
+          "paired with an un-latch on every normal and raising exit; every "
+          "write happens in write-enabled state (IEC 62386-102 9.10 "
+          "typestate); None -> not implemented, framing error -> "
+          "ResponseError; whole-bank and single-value reads share one "
+          "interpretation; list index == location address.  Agreement of "
+          "the DTR0 tracker with arbitrary unit layouts is not decided.",
+  "note": ASSUME + "A conforming unit clears writeEnableState on any "
+          "command outside DTRx / WriteMemoryLocation* / QueryContentDTRx; "
+          "generator-close edges are out of scope."},
+ "C10": {
+  "technique": "path-sensitive typestate on the generator CFG: pending "
+               "answer checks, lock pairing, write-enable, guard provenance",
+  "text": "Proves on the CFG of write_raw/write, for every path: refusals "
+          "(length, writability of all locations) and value_to_raw precede "
+          "the first command; after each checked write the None / framing "
+          "error / echo tests are completed before the next command, with "
+          "the documented exception classes, and the DTR0 post-check follows "
+          "- bypassed only under ignore_feedback; unlock (0x55) is paired "
+          "with re-lock (0xFF) on every normal exit; all writes in "
+          "write-enabled state after DTR1(bank).  Unit-side effects are not "
+          "decided.",
+  "note": ASSUME + "Same write-enable typestate as C09."},
+ "C11": {
+  "technique": "partial evaluation of the declared memory map + table "
+               "comparison with a hand-transcribed layout; interpreted "
+               "metaclass; abstract interpretation of decoders over a "
+               "byte-subset x symbolic-tail domain",
+  "text": "All 81 declared values and 9 banks are extracted by folding the "
+          "class bodies and compared both ways with spec/memory_map.json "
+          "(IEC 62386-102 Table 9, DiiA 251-253): bank, locations, access "
+          "type, kind, MASK/TMASK support, limits; overlap/lockability/"
+          "contiguity on the extracted map; mask/tmask patterns from the "
+          "interpreted metaclass; `check_raw(raw) or raw_to_value(raw)` "
+          "abstractly interpreted per value: no exception escapes, flags on "
+          "exactly the expected first-byte sets (1-byte values, scale "
+          "bytes), MASK before TMASK before validity; writable values have "
+          "an encoder at least as derived as their decoder.  Numeric decode "
+          "identities of wide values are not decided.",
+  "note": ASSUME + "The transcription in spec/memory_map.json; "
+          "bytes.decode('ascii') raises for bytes >= 0x80."},
+ "C15": {
+  "technique": "lockset analysis over the resolved call graph; acquire/"
+               "release pairing on CFGs with cancellation edges; adjacency "
+               "dataflow for EnableDeviceType",
+  "text": "For every asyncio schedule (asyncio.Lock excludes other holders "
+          "whatever the interleaving): each of the 10 wire-write sites of "
+          "hid.py/serial.py runs under transaction_lock - held in the "
+          "function, in all callers, or under in_transaction=True passed "
+          "only by lock holders - and inside the gateway serialiser; the "
+          "lock acquired by a function is released on every normal, "
+          "exception and cancellation exit and never released unheld; "
+          "sequences are closed; each transmission of a caller's command is "
+          "immediately preceded by EnableDeviceType when it needs one.  "
+          "Liveness ('every caller completes') is not decided.",
+  "note": ASSUME + "asyncio.Lock/Semaphore semantics; exceptions and "
+          "cancellation surface only at awaits and raise statements; "
+          "name-based method resolution within the driver class family."},
+ "C16": {
+  "technique": "call-site rule over resolved attributes, status-table "
+               "extraction with constant folding vs transcribed protocol "
+               "tables, reaching definitions, lock-region containment, "
+               "contradiction rule for flushes",
+  "text": "For the six send paths: every returned value is None or the "
+          "command's own response(...) on None/BackwardFrame/"
+          "BackwardFrameError; gateway status chains equal the protocol "
+          "tables and test the fields unpacked from the report; the answer "
+          "is awaited in the write's serialiser region or routed by the "
+          "sequence byte the write used; stale-answer flushes drain the "
+          "queue they test, completely.  Races between late answers are not "
+          "decided.",
+  "note": ASSUME + "spec/wire/*.json transcriptions."},
+ "C17": {
+  "technique": "pairing with exceptional (cancellation) edges, literal "
+               "exhaustiveness, wake-up coverage, sibling agreement of "
+               "write-failure handlers, bounded-await rule",
+  "text": "Proves: the Tridonic in-flight slot is released on every exit "
+          "incl. cancellation at any await; each documented status literal "
+          "is reported and the reconnect-limit branch reports 'failed'; "
+          "disconnect always wakes every waiter kind with 'fail' which "
+          "becomes CommunicationError; every send-path wire write maps "
+          "OSError to disconnect(reconnect)+CommunicationError; the only "
+          "swallowed exception is CommunicationError under not-exceptions "
+          "in the retry loop; every queue await under a lock in serial.py "
+          "is bounded by a class timeout.  Timing and liveness are not "
+          "decided.",
+  "note": ASSUME + "Faults surface at awaits / raises only."},
+ "C19": {
+  "technique": "interval analysis of buffer indices, enum exhaustiveness, "
+               "must-pass-through on the CFG with call-exception edges, "
+               "transmitter/receiver sibling agreement",
+  "text": "For every byte stream and chunking: each write into the fixed "
+          "receive buffers has max(index) < size given the accepted length "
+          "interval and the counter invariant; one dispatch branch per "
+          "ReadState member; every path of the terminal state (bad "
+          "checksum, unknown/handled/unexpected type) resets the receiver; "
+          "data_received is a plain per-byte loop with all state in self; "
+          "checksum span and start byte equal the transmitter's; enum "
+          "conversions are guarded.  Equality with a reference deframer is "
+          "not decided.",
+  "note": ASSUME + "bytes iteration yields ints 0..255; per-type handlers "
+          "may raise deliberately."},
+ "C20": {
+  "technique": "type flow via reaching definitions, must-assign on all "
+               "paths incl. exceptional, path-sensitive report/clear "
+               "pairing, registry who-may-write",
+  "text": "Every in-repo call of the top-level decoder passes a "
+          "ForwardFrame on all reaching definitions; in each observer the "
+          "device-type memory is re-assigned (EnableDeviceType.param or 0) "
+          "on every path out of the frame handler; in the Tridonic watcher a "
+          "pending command is reported exactly once before being cleared, a "
+          "fresh command is stashed xor reported, the failure flag matches "
+          "the branch and queries carry their own response object; serial "
+          "receivers distribute a decoded frame exactly once; subscriber "
+          "registries are touched only through their own handle.  Timer "
+          "semantics and report order over histories are not decided.",
+  "note": ASSUME + "EnableDeviceType applies to the next forward frame "
+          "only."},
 }
 NA = {}
